@@ -915,6 +915,9 @@ func analyzeRange(r *ssa.Range) bool {
 			return false
 		}
 	}
+	if isGuardedBitSetBody(hdr, blocks, inLoop) {
+		return true
+	}
 	for _, b := range blocks {
 		if len(b.Succs) != 1 || b.Succs[0] != hdr {
 			return false // straight-line body only
@@ -940,4 +943,71 @@ func analyzeRange(r *ssa.Range) bool {
 		}
 	}
 	return true
+}
+
+// isGuardedBitSetBody recognises the second commutative shape: `for k, v := range m { if pure(k) { acc.Set(v) } }`
+// where pure is strings.Contains and Set is (*api.EventMask).Set on a receiver defined outside the loop.
+// Set is a bitwise or into one accumulator (commutative, idempotent) and the guard is a pure function of
+// immutable strings, so the final accumulator does not depend on the iteration order.
+func isGuardedBitSetBody(hdr *ssa.BasicBlock, blocks []*ssa.BasicBlock, inLoop func(ssa.Value) bool) bool {
+	sets := 0
+	for _, b := range blocks {
+		for _, s := range b.Succs {
+			ok := s == hdr
+			for _, bb := range blocks {
+				if s == bb {
+					ok = true
+				}
+			}
+			if !ok {
+				return false // no exit from the body other than back to the header
+			}
+		}
+		for _, in := range b.Instrs {
+			switch x := in.(type) {
+			case *ssa.Extract, *ssa.Jump, *ssa.DebugRef:
+			case *ssa.Alloc: // the variadic argument array of Set, local to one iteration
+			case *ssa.IndexAddr:
+				if !inLoop(x.X) {
+					return false
+				}
+			case *ssa.Slice:
+				if !inLoop(x.X) {
+					return false
+				}
+			case *ssa.Store:
+				if !inLoop(x.Addr) {
+					return false // stores only into the per-iteration argument array
+				}
+			case *ssa.If:
+				c, ok := x.Cond.(*ssa.Call)
+				if !ok || !inLoop(c) {
+					return false
+				}
+			case *ssa.Call:
+				callee := x.Call.StaticCallee()
+				if callee == nil || x.Call.IsInvoke() {
+					return false
+				}
+				switch callee.String() {
+				case "strings.Contains":
+					// pure: its string arguments are immutable SSA values (loop variables, constants or
+					// values defined before the loop), so the guard cannot depend on earlier iterations
+				case "(*github.com/containerd/nri/pkg/api.EventMask).Set":
+					if len(x.Call.Args) < 1 || inLoop(x.Call.Args[0]) {
+						return false
+					}
+					if x.Referrers() != nil && len(*x.Referrers()) != 0 {
+						return false
+					}
+					sets++
+				default:
+					return false
+				}
+			default:
+				return false
+			}
+		}
+	}
+	return sets > 0
 }
